@@ -6,6 +6,7 @@ import vlib
 
 KEYS = ["a", "b", "c", "d"]
 TYPEY = ["5", "true", "null", "1.5", "~"]    # strings that look like another type: they must stay strings
+NEWKEYS = ["x?", "*.log", "q*z", ""]          # never match a document key (documents use KEYS and ""): created literally
 WILD = ["*", "?", "a*", "c*", "?og", "*a*", "c?t", "**", "*?"]
 STRS = ["", "a", "b", "cat", "dog", "a b", "xé", "zz", "c*", "*", "?og"]   # [1:5] are used as literals; pattern-like ones only occur in documents
 INTS = [0, 1, 2, 3, -1, -2, 5, 10, 7, 100, 9007199254740992]   # in documents: exactly representable in binary64 (JSON reader goes through float64: C06)
@@ -40,6 +41,11 @@ def gen_doc(rng, depth=0, maxdepth=3):
     d = {}
     for k in rng.sample(KEYS, rng.choice([0, 1, 2, 3, 3, 4])):
         d[k] = gen_doc(rng, depth + 1, maxdepth)
+    if d and rng.random() < 0.08:
+        # the empty string is an ordinary key
+        items = list(d.items())
+        items.insert(rng.randrange(len(items) + 1), ("", gen_doc(rng, depth + 1, maxdepth)))
+        d = dict(items)
     return d
 
 
@@ -163,6 +169,7 @@ def render(e):
             return str(v)
         return json.dumps(v, ensure_ascii=False)
     if k == "getkey":
+        assert e[1].isalpha(), "getkey is for identifier-like keys; use the index form for %r" % (e[1],)
         return "." + e[1]
     if k == "index":
         l = "." if e[1] == ("self",) else "(" + render(e[1]) + ")"
@@ -335,7 +342,8 @@ class Gen:
             p = ()
         if allow_new and rng.random() < 0.35:
             for _ in range(rng.choice([1, 1, 2])):
-                p = p + (rng.choice(KEYS + [0, 1, 2, -1]),)
+                # (a key with * or ? that matches nothing is created literally; "" is an ordinary key)
+                p = p + (rng.choice(KEYS + [0, 1, 2, -1] + (NEWKEYS if rng.random() < 0.25 else [])),)
         return p or (rng.choice(KEYS),)
 
     def path(self, d):
@@ -348,7 +356,7 @@ class Gen:
                 i = rng.randrange(len(p))
                 e = None
                 for j, s in enumerate(p):
-                    step = ("index", ("self",), None) if j == i else (("getkey", s) if isinstance(s, str) else ("index", ("self",), lit(s)))
+                    step = ("index", ("self",), None) if j == i else (("getkey", s) if isinstance(s, str) and s.isalpha() else ("index", ("self",), lit(s)))
                     e = step if e is None else ("pipe", e, step)
                 return e
             return path_expr(p)
